@@ -245,6 +245,10 @@ class SymReal:
     def __round__(s, n=None):
         """exact model of round(): fresh integer k with |x*10^n - k| <= 1/2 (ties left open)."""
         zs = _simp(s.z)
+        if z3.is_rational_value(zs):
+            fr = Fraction(zs.numerator_as_long(), zs.denominator_as_long())
+            r = round(fr, n) if n is not None else round(fr)
+            return SymReal(_q(Fraction(r)))
         k = _ENG.fresh_int("round_k")
         sc = z3.RatVal(10 ** (n or 0), 1) if (n or 0) >= 0 else z3.RatVal(1, 10 ** (-n))
         _ENG.solver.add(zs * sc - z3.ToReal(k) <= z3.RatVal(1, 2), zs * sc - z3.ToReal(k) >= z3.RatVal(-1, 2))
